@@ -77,18 +77,28 @@ def same_dist(got, want):
     return None
 
 
-def check_excess_and_inverse(res, rng, T, names, P):
+def check_excess_and_inverse(res, rng, T, names, P, carrier=None):
+    """carrier: the caller's ONE dictionary object, refilled in place with the current probabilities and handed to the helpers as it is
+    (a distribution that is updated where it lives); otherwise every helper gets a fresh copy"""
     import gcmpy
     Pf = {k: float(v) for k, v in P.items()}
     ctx = {"names": names, "P": sorted(Pf.items())}
+    if carrier is not None:
+        carrier.update(Pf)
+        for k in [k for k in carrier if k not in Pf]:
+            del carrier[k]
+        ctx["same_dict_object_as_in_the_previous_call"] = True
+    given = (lambda: carrier) if carrier is not None else (lambda: dict(Pf))
     # mean
-    mean = sut("AverageJointDegreeFromJDD", gcmpy.AverageJointDegreeFromJDD.get_average_joint_degrees, dict(Pf))
+    mean = sut("AverageJointDegreeFromJDD", gcmpy.AverageJointDegreeFromJDD.get_average_joint_degrees, given())
     want_mean = [sum(k[i] * v for k, v in P.items()) for i in range(T)]
     res.count("mean_checks")
     if len(mean) != T or any(not close(m, w) for m, w in zip(mean, want_mean)):
         res.violate("mean-joint-degree-differs", got=list(mean), want=[float(x) for x in want_mean], ctx=ctx); return
     # excess distributions
-    qs = sut("JointExcessfromJDD.get_joint_excess_distributions", gcmpy.JointExcessfromJDD.get_joint_excess_distributions, dict(Pf))
+    qs = sut("JointExcessfromJDD.get_joint_excess_distributions", gcmpy.JointExcessfromJDD.get_joint_excess_distributions, given())
+    if carrier is not None and carrier != Pf:
+        res.count("helpers_that_changed_the_caller's_dictionary")
     if len(qs) != T:
         res.violate("wrong-number-of-excess-distributions", got=len(qs), ctx=ctx); return
     want_q = []
@@ -299,7 +309,20 @@ def run_case(case):
     if kind == "algebra":
         names = names_for(rng, T, res)
         P = random_P(rng, T, need_positive=rng.random() < 0.7)
-        check_excess_and_inverse(res, rng, T, names, P)
+        if rng.random() < 0.4:
+            # one dictionary object that lives on: evaluated, then given new probabilities on the same joint degrees IN PLACE, evaluated again
+            carrier = {}
+            check_excess_and_inverse(res, rng, T, names, P, carrier=carrier)
+            for _ in range(rng.choice([1, 2])):
+                if res.verdict != "held":
+                    break
+                w = [Fraction(rng.randint(1, 20), rng.randint(1, 7)) for _ in P]
+                Z = sum(w)
+                P = {k: x / Z for k, x in zip(list(P), w)}
+                res.count("re-evaluations_of_one_dictionary_object_after_an_in_place_update")
+                check_excess_and_inverse(res, rng, T, names, P, carrier=carrier)
+        else:
+            check_excess_and_inverse(res, rng, T, names, P)
         res.nontrivial = T >= 2 and len(P) >= 3
         res.sample = {"kind": kind, "names": names, "P": sorted((k, str(v)) for k, v in P.items())}
     elif kind == "rows":
